@@ -239,6 +239,31 @@ Definition addrs (ws : list (N * N)) : list N := map fst ws.
 Definition distinct_stores (w : nat -> list (N * N)) : Prop :=
   forall i j a, (i < NL)%nat -> (j < NL)%nat -> i <> j -> In a (addrs (w i)) -> ~ In a (addrs (w j)).
 
+(** ** Lane independence of the sequential loop (what a Go handler is)
+
+    For the handler described by [d], run as the sequential loop [seq_loop]:
+    (1) a lane whose EXEC bit is clear keeps all its registers, its bit of the
+        mask destination is the bit of the initial accumulator (0 unless the
+        handler preserves), no access is logged for it, and a byte of memory /
+        LDS changes only if an ACTIVE lane stores to it;
+    (2) permuting the lanes of the input (registers, EXEC, VCC, mask source)
+        permutes the output in the same way (registers, EXEC, VCC, mask
+        destination bitwise; other scalars equal), and memory / LDS agree when
+        the active lanes store to pairwise distinct addresses. *)
+Definition lane_independent (d : desc) : Prop :=
+  (forall st i, active (exec st) i = false ->
+     (forall r, vgpr (seq_loop d st) i r = vgpr st i r) /\
+     N.testbit (dst_val d (seq_loop d st)) (N.of_nat i) = N.testbit (acc0 d st) (N.of_nat i) /\
+     (forall x, In x (trace (seq_loop d st)) -> a_lane x = i -> In x (trace st)) /\
+     (forall a, (forall j, (j < NL)%nat -> active (exec st) j = true -> ~ In a (addrs (lo_gst (out_at d st j)))) ->
+                gmem (seq_loop d st) a = gmem st a) /\
+     (forall a, (forall j, (j < NL)%nat -> active (exec st) j = true -> ~ In a (addrs (lo_lst (out_at d st j)))) ->
+                lds (seq_loop d st) a = lds st a)) /\
+  (forall p p' st st', is_perm p p' -> perm_rel p d st st' ->
+     perm_out p d (seq_loop d st) (seq_loop d st') /\
+     (distinct_stores (lift_gst d st) -> forall a, gmem (seq_loop d st') a = gmem (seq_loop d st) a) /\
+     (distinct_stores (lift_lst d st) -> forall a, lds (seq_loop d st') a = lds (seq_loop d st) a)).
+
 (** ** Scalar handlers: the access pattern *)
 
 Record sstate := mkS {
